@@ -80,10 +80,7 @@ def build(reg):
         ensures=builder_posts("not no_cl and not %s" % TE, CLV) + [
                  ('exact-bytes',
                   "result == protocol_version + b' ' + utf8enc(dec(status_code)) + (b'' if (isnone(reason) or len(reason) == 0) else b' ' + reason) + "
-                  "%s + hdrs(%s, %s, len(%s)) + %s + (b'' if isnone(body) else body)" % (CRLF, K2, M2, K2, CRLF)),
-                 ('status-line', "result.startswith(protocol_version + b' ' + utf8enc(dec(status_code)) + "
-                                 "(b'' if (isnone(reason) or len(reason) == 0) else b' ' + reason) + %s)" % CRLF),
-                 ('ends-with-body', "result.endswith(%s + (b'' if isnone(body) else body))" % CRLF)],
+                  "%s + hdrs(%s, %s, len(%s)) + %s + (b'' if isnone(body) else body)" % (CRLF, K2, M2, K2, CRLF)),],
         raises={}, uses=[ANYLOW_INTRO],
         loops={0: LoopSpec(index='i', modifies=['has_transfer_encoding', 'content_length', 'k', '_'], inv=INV)}))
     INV = ["has_transfer_encoding == anylow(keys(headers), i, b'transfer-encoding')"] + CLINV
@@ -95,9 +92,7 @@ def build(reg):
         ensures=builder_posts("not isnone(body) and len(body) > 0 and not %s" % TE, "utf8enc(dec(len(body)))", extra_key='User-Agent') + [
                  ('exact-bytes',
                   "result == method + b' ' + url + b' ' + protocol_version + "
-                  "%s + hdrs(%s, %s, len(%s)) + %s + (b'' if isnone(body) else body)" % (CRLF, K2, M2, K2, CRLF)),
-                 ('request-line', "result.startswith(method + b' ' + url + b' ' + protocol_version + %s)" % CRLF),
-                 ('ends-with-body', "result.endswith(%s + (b'' if isnone(body) else body))" % CRLF)],
+                  "%s + hdrs(%s, %s, len(%s)) + %s + (b'' if isnone(body) else body)" % (CRLF, K2, M2, K2, CRLF)),],
         raises={},
         loops={0: LoopSpec(index='i', modifies=['has_transfer_encoding', 'has_user_agent', 'content_length', 'k', '_'], inv=INV)}))
     return T
@@ -252,7 +247,96 @@ def bounded_checks(reg, tier, seed):
             bad.append(e)
     return [{'name': 'self-made responses vs independent parser (http.client)', 'bounded': True,
              'bound': 'builder argument grid (7 header sets x 4 bodies x flags), all canned packets, okResponse x 4 sizes x compress, redirects',
-             'cases': n, 'violations': bad[:3]}]
+             'cases': n, 'violations': bad[:3]}, hostile_handler_sweep(tier, seed, check)]
+
+
+def hostile_handler_sweep(tier, seed, check):
+    """First sentence of C06 as a bounded stand-in: hostile client bytes (framing-field grid + seeded
+    random damage, whole and byte by byte) into a real HttpProtocolHandler with a fake upstream.  Allowed
+    outcomes: keep waiting with nothing sent; serve (the request reaches the upstream / a plugin answers);
+    or queue a response that the independent parser accepts and ask for teardown.  Never: no return
+    (watchdog), an unparsable or partial response of its own making, or a rejection that keeps the
+    connection open."""
+    import itertools
+    from unittest import mock
+    from proxy.common.flag import FlagParser
+    from proxy.http.handler import HttpProtocolHandler
+    from proxy.http.connection import HttpClientConnection
+    import proxy.http.proxy.server as srv
+    from pyvc.guard import time_limit, NativeTimeout
+    from . import parser_sweep
+    import tempfile
+    bad, n = [], 0
+    inputs = [m for t, m in parser_sweep.hostile_inputs(tier, seed) if t == 1]
+    first_ok = b'GET http://h.example/ HTTP/1.1\r\nHost: h.example\r\n\r\n'
+    static_dir = tempfile.mkdtemp(prefix='pyvc-static-')
+    configs = [('forward proxy', FlagParser.initialize(threaded=False)),
+               ('proxy + web server + static files', FlagParser.initialize(threaded=False, enable_web_server=True, enable_static_server=True,
+                                                                           static_server_dir=static_dir))]
+    for (role, flags), m in itertools.product(configs, inputs):
+        for mode in ('whole', 'bytewise', 'later', 'later-bytewise'):
+            sent_up = []
+
+            class FakeUp(object):
+                def __init__(self, host, port):
+                    self.addr, self.closed, self.buffer = (host, port), True, []
+
+                def connect(self, addr=None, source_address=None):
+                    self.closed = False
+                    self.connection = mock.MagicMock()
+
+                def queue(self, mv):
+                    sent_up.append(bytes(mv))
+
+                def has_buffer(self):
+                    return False
+
+                def close(self):
+                    self.closed = True
+            sock = mock.MagicMock()
+            sock.fileno.return_value = 11
+            h = HttpProtocolHandler(HttpClientConnection(sock, ('127.0.0.1', 9)), flags=flags)
+            teardown, raised = False, None
+            pieces = [m] if mode in ('whole', 'later') else [m[i:i + 1] for i in range(len(m))]
+            try:
+                with time_limit(10), mock.patch.object(srv, 'TcpServerConnection', FakeUp):
+                    if mode.startswith('later'):        # the hostile bytes are a follow-up request on a keep-alive connection
+                        h.handle_data(memoryview(first_ok))
+                    for pc in pieces:
+                        if h.handle_data(memoryview(pc)):
+                            teardown = True
+                            break
+            except NativeTimeout:
+                bad.append({'input': m[:120].decode('latin-1'), 'fed': mode, 'what': 'handle_data does not return within 10 s: one client hangs the worker'})
+                continue
+            except Exception as e:      # noqa  the worker tears the connection down (C05), without a response
+                raised = e
+            n += 1
+            out = b''.join(bytes(x) for x in h.work.buffer)
+            case = {'input': m[:120].decode('latin-1'), 'fed': mode, 'role': role}
+            if raised is not None:
+                # an exception leaving handle_data ends the work through the worker's cleanup, which does not flush
+                # in threadless mode: whatever was queued is never delivered
+                bad.append(dict(case, what='%r escapes handle_data: the connection is dropped without a response (%d queued bytes are not flushed)' % (
+                    raised, len(out))))
+            elif teardown and not out:
+                bad.append(dict(case, what='teardown requested although nothing was sent to the client (silent close)'))
+            if out:
+                e = check(out, None, 'response to hostile input')
+                if e:
+                    bad.append(dict(case, what=e, emitted=out[:120].decode('latin-1')))
+                elif out.startswith(b'HTTP/1.1 4') and not (teardown or raised):
+                    bad.append(dict(case, what='an error response was queued but the connection is kept open', emitted=out[:60].decode('latin-1')))
+            if len(bad) > 5:
+                break
+        if len(bad) > 5:
+            break
+    import shutil
+    shutil.rmtree(static_dir, ignore_errors=True)
+    return {'name': 'hostile client bytes into the real HttpProtocolHandler (wait / serve / valid error + close; never hang)', 'bounded': True,
+            'bound': '%d request inputs (framing-field grid + non-UTF-8 targets + seeded random damage) x 2 roles, first / follow-up position, '
+                     'whole and byte by byte, 10 s watchdog' % len(inputs),
+            'cases': n, 'violations': bad[:3]}
 
 
 CROSSCHECK = ['build_http_header', 'build_http_pkt', 'build_http_response', 'build_http_request']
